@@ -23,7 +23,14 @@ var solvers = []solverSpec{
 	{"z3-new", func(f string, t int) []string { return []string{"z3-new", fmt.Sprintf("-T:%d", t), f} }},
 	{"z3", func(f string, t int) []string { return []string{"z3", fmt.Sprintf("-T:%d", t), f} }},
 	{"cvc5", func(f string, t int) []string {
-		return []string{"cvc5", "--produce-models", fmt.Sprintf("--tlimit=%d", t*1000), f}
+		if _, err := os.Stat(f + ".cvc5"); err == nil {
+			f = f + ".cvc5"
+		}
+		return []string{"cvc5", "--lang=smt2", "--produce-models", fmt.Sprintf("--tlimit=%d", t*1000), f}
+	}},
+	{"z3-qi", func(f string, t int) []string {
+		// same solver, eager quantifier instantiation: decides some goals the default configuration gives up on
+		return []string{"z3-new", fmt.Sprintf("-T:%d", t), "smt.qi.eager_threshold=100", f}
 	}},
 }
 
@@ -65,9 +72,19 @@ func solve(query string, dir, name string, timeoutS int, wantModel bool, quickOn
 		q += "(get-model)\n"
 	}
 	os.WriteFile(file, []byte(q), 0o644)
+	// cvc5 has no lambda terms in first-order logics: the lambda definitions of framed
+	// arrays (one per line, emitted by frameDef) become quantified equalities for it
+	if strings.Contains(q, "(lambda ((r Int)) ") {
+		os.WriteFile(file+".cvc5", []byte(delambda(q)), 0o644)
+	}
 	// stage 1: z3-new alone, short budget
 	ctx0, cancel0 := context.WithTimeout(context.Background(), time.Duration(timeoutS+2)*time.Second)
-	short := 8
+	// (a query z3-new does not decide at once is usually decided by another solver at once:
+	// a short first stage keeps the cost of z3-new's bad cases low)
+	short := 3
+	if quickOnly {
+		short = 4
+	}
 	if timeoutS < short {
 		short = timeoutS
 	}
@@ -131,6 +148,9 @@ func dischargeAll(obls []*Obligation, dir string, timeoutS, workers int) {
 		go func(i int, o *Obligation) {
 			defer wg.Done()
 			defer func() { <-sem }()
+			if o.Solver == "structural" {
+				return // decided by the generator itself
+			}
 			r := solve(o.Query, dir, fmt.Sprintf("q%04d", i), timeoutS, !o.WantSat, o.WantSat)
 			o.Result, o.Solver, o.TimeS = r.result, r.solver, r.secs
 			if r.result == "sat" {
@@ -141,4 +161,21 @@ func dischargeAll(obls []*Obligation, dir string, timeoutS, workers int) {
 		}(i, o)
 	}
 	wg.Wait()
+}
+
+// delambda rewrites `(assert (= X (lambda ((r Int)) BODY)))` into
+// `(assert (forall ((r Int)) (= (select X r) BODY)))`, line by line.
+func delambda(q string) string {
+	lines := strings.Split(q, "\n")
+	const mark = " (lambda ((r Int)) "
+	for i, l := range lines {
+		j := strings.Index(l, mark)
+		if !strings.HasPrefix(l, "(assert (= ") || j < 0 || !strings.HasSuffix(l, ")))") {
+			continue
+		}
+		x := l[len("(assert (= "):j]
+		body := l[j+len(mark) : len(l)-3]
+		lines[i] = fmt.Sprintf("(assert (forall ((r Int)) (= (select %s r) %s)))", x, body)
+	}
+	return strings.Join(lines, "\n")
 }
